@@ -321,6 +321,26 @@ class NativeVersion(BaseVersion):
         return self._version_cmp_part(self.debian_revision or "0",
                                       other.debian_revision or "0")
 
+    def __hash__(self):
+        # type: () -> int
+        # Versions that compare equal must have the same hash
+        # ("1.0" == "1.00", "1" == "0:1" == "1-0"), so hash what _compare
+        # looks at rather than the string.
+        return hash((int(self.epoch or "0"),
+                     self._hash_key(self.upstream_version or "0"),
+                     self._hash_key(self.debian_revision or "0")))
+
+    @classmethod
+    def _hash_key(cls, part):
+        # type: (str) -> Tuple[Union[int, str], ...]
+        key = [int(x) if cls.re_digits.match(x) else x
+               for x in cls.re_all_digits_or_not.findall(part)
+               ]  # type: List[Union[int, str]]
+        # an absent trailing part compares equal to zero
+        while key and key[-1] == 0:
+            key.pop()
+        return tuple(key)
+
     @classmethod
     def _order(cls, x):
         # type: (str) -> int
